@@ -212,7 +212,9 @@ fn do_poll(comb: &mut dyn FnMut(&mut Context<'_>) -> String, w: usize) -> String
         Ok(s) => s,
         Err(_) => "X".to_string(),
     };
+    settle();
     log(format!("pe {o}"));
+    ks();
     o
 }
 
@@ -335,7 +337,7 @@ fn run_waves(rng: &mut Rng, fam: &str, id: &str) {
         if round > 0 {
             for c in &slow {
                 block.ops.push(format!("f {c} 0"));
-                fire(*c, 0);
+                fire_op(*c, 0);
             }
         }
         // poll, and keep polling as long as the poll itself woke its task (what a wake-driven
@@ -374,8 +376,8 @@ fn exh_space(fam: &str) -> u64 {
 ///   container kind ∈ {Vec | tuple}, n ∈ {1, 2},
 ///   per child: 0–2 Pending steps, each with or without a self-wake, then
 ///              futures: Ready(ok) | Ready(err) | never;  streams: End | item,End | item,Pending,item,End | never,
-///   a history of 5 operations over {poll with a fresh waker, poll with the same waker, fire(0,0),
-///   fire(1,0), fire(0,1)}, then drop.
+///   a history of 5 operations over {poll with a fresh waker, poll with the same waker, fire_op(0,0),
+///   fire_op(1,0), fire_op(0,1)}, then drop.
 /// Running `exh_space(fam)` consecutive cases covers every such case exactly once.
 fn run_exh(fam: &str, id: &str, k: u64) {
     reset();
@@ -493,15 +495,15 @@ fn run_exh(fam: &str, id: &str, k: u64) {
             }
             2 => {
                 block.ops.push("f 0 0".into());
-                fire(0, 0);
+                fire_op(0, 0);
             }
             3 => {
                 block.ops.push("f 1 0".into());
-                fire(1, 0);
+                fire_op(1, 0);
             }
             _ => {
                 block.ops.push("f 0 1".into());
-                fire(0, 1);
+                fire_op(0, 1);
             }
         }
     }
@@ -645,7 +647,7 @@ fn run_fixed(rng: &mut Rng, fam: &str, id: &str, prof: &Profile) {
                 let c = *rng.pick(&waiting);
                 block.ops.push(format!("f {c} 0"));
                 let from = CTX.with(|c| c.borrow().log.len());
-                fire(c, 0);
+                fire_op(c, 0);
                 woken = CTX.with(|c| c.borrow().log[from..].iter().any(|l| *l == format!("wo {cur_w}")));
             }
         }
@@ -674,7 +676,7 @@ fn run_fixed(rng: &mut Rng, fam: &str, id: &str, prof: &Profile) {
             let c = rng.below(n);
             let age = if rng.chance(75) { 0 } else { rng.below(3) };
             block.ops.push(format!("f {c} {age}"));
-            fire(c, age);
+            fire_op(c, age);
         }
     }
     for _ in 0..rng.below(3) {
@@ -682,7 +684,7 @@ fn run_fixed(rng: &mut Rng, fam: &str, id: &str, prof: &Profile) {
             let c = rng.below(n);
             let age = rng.below(2);
             block.ops.push(format!("f {c} {age}"));
-            fire(c, age);
+            fire_op(c, age);
         }
     }
     block.ops.push("d".into());
@@ -694,7 +696,7 @@ fn run_fixed(rng: &mut Rng, fam: &str, id: &str, prof: &Profile) {
             let c = rng.below(n);
             let age = rng.below(2);
             block.ops.push(format!("f {c} {age}"));
-            fire(c, age);
+            fire_op(c, age);
         }
     }
     let trace = CTX.with(|c| std::mem::take(&mut c.borrow_mut().log));
@@ -709,13 +711,17 @@ fn run_group(rng: &mut Rng, stream: bool, id: &str, prof: &Profile) {
     let keyed = rng.chance(50);
     let model_fam = if stream { "strGroup" } else { "futGroup" };
     let mut block = Block {
-        header: format!("CASE {id} {model_fam} {MODE} {} 0 group", if keyed { 1 } else { 0 }),
+        header: String::new(),
         scripts: vec![],
         ops: vec![],
     };
-    let mut g: Option<Box<dyn GroupDyn>> = Some(build_group(stream, keyed));
     let mut mirror = SlabMirror::default();
     let mut key_of: Vec<Option<usize>> = vec![]; // child -> current key (None once gone)
+    // constructor: new() / default() / with_capacity(k) (= new + reserve k) / from_iter (= new + extend)
+    let ctor_roll = rng.below(100);
+    let ctor_kind = if prof.is("drain") || prof.is("refill") || ctor_roll < 55 { 0 } else if ctor_roll < 65 { 1 } else if ctor_roll < 82 { 2 } else { 3 };
+    let cap0 = rng.below(7);
+    let iter_n = rng.below(4);
     let mut inserts = 0usize;
     let mut next_w = 1usize;
     let mut cur_w = 1usize;
@@ -765,6 +771,47 @@ fn run_group(rng: &mut Rng, stream: bool, id: &str, prof: &Profile) {
             }
         }
     };
+    let ctor = match ctor_kind {
+        0 => Ctor::New,
+        1 => Ctor::Default,
+        2 => {
+            block.ops.push(format!("v {cap0}"));
+            Ctor::WithCapacity(cap0)
+        }
+        _ => {
+            let cs: Vec<usize> = (0..iter_n).map(|_| new_child(rng, &mut block, &mut key_of)).collect();
+            block.ops.push(format!(
+                "e {}",
+                if cs.is_empty() { "-".to_string() } else { cs.iter().map(|c| c.to_string()).collect::<Vec<_>>().join(",") }
+            ));
+            Ctor::FromIter(cs)
+        }
+    };
+    let ctor_text = match &ctor {
+        Ctor::New => "new".to_string(),
+        Ctor::Default => "default".to_string(),
+        Ctor::WithCapacity(k) => format!("cap:{k}"),
+        Ctor::FromIter(cs) => format!("iter:{}", if cs.is_empty() { "-".to_string() } else { cs.iter().map(|c| c.to_string()).collect::<Vec<_>>().join(",") }),
+    };
+    block.header = format!("CASE {id} {model_fam} {MODE} {} 0 group {ctor_text}", if keyed { 1 } else { 0 });
+    if let Ctor::FromIter(cs) = &ctor {
+        // label the members with the keys slab hands out, as for `extend`
+        for c in cs {
+            let k = mirror.insert();
+            set_slot(*c, k);
+            key_of[*c] = Some(k);
+        }
+    }
+    let mut g: Option<Box<dyn GroupDyn>> = Some(build_group_with(stream, keyed, ctor.clone()));
+    if let Ctor::FromIter(cs) = &ctor {
+        for c in cs {
+            log(format!("in {c} {}", key_of[*c].unwrap()));
+        }
+        inserts += 0;
+    }
+    if ctor_kind >= 2 {
+        ks();
+    }
     for _ in 0..nops {
         if poisoned {
             break;
@@ -848,6 +895,7 @@ fn run_group(rng: &mut Rng, stream: bool, id: &str, prof: &Profile) {
             if mk != k {
                 log(format!("mirror-mismatch {mk} {k}"));
             }
+            ks();
         } else if r < 50 {
             if polls == 0 || prof.is("drain") || !rng.chance(20) {
                 cur_w = next_w;
@@ -875,7 +923,7 @@ fn run_group(rng: &mut Rng, stream: bool, id: &str, prof: &Profile) {
             let age = if prof.is("drain") || rng.chance(75) { 0 } else { rng.below(3) };
             block.ops.push(format!("f {c} {age}"));
             let from_f = CTX.with(|c| c.borrow().log.len());
-            fire(c, age);
+            fire_op(c, age);
             if CTX.with(|c| c.borrow().log[from_f..].iter().any(|l| *l == format!("wo {cur_w}"))) {
                 g_woken = true;
             }
@@ -893,10 +941,12 @@ fn run_group(rng: &mut Rng, stream: bool, id: &str, prof: &Profile) {
                 }
                 log(format!("rm {k} {}", if present { 1 } else { 0 }));
             }
+            ks();
         } else if r < 85 {
             let k = rng.below(6);
             block.ops.push(format!("v {k}"));
             grp.reserve(k);
+            ks();
         } else if r < 89 && !stream {
             let m = rng.below(4);
             let cs: Vec<usize> = (0..m).map(|_| new_child(rng, &mut block, &mut key_of)).collect();
@@ -916,28 +966,33 @@ fn run_group(rng: &mut Rng, stream: bool, id: &str, prof: &Profile) {
             for (c, k) in probe {
                 log(format!("in {c} {k}"));
             }
+            ks();
         } else if r < 92 {
             block.ops.push("ql".into());
             log(format!("an 0 {}", grp.len()));
+            ks();
         } else if r < 94 {
             block.ops.push("qe".into());
             log(format!("an 1 {}", if grp.is_empty() { 1 } else { 0 }));
+            ks();
         } else if r < 98 {
             let j = rng.below(inserts + 1);
             block.ops.push(format!("qc {j}"));
             if let Some((k, p)) = grp.contains(j) {
                 log(format!("an {} {}", 100 + k, if p { 1 } else { 0 }));
             }
+            ks();
         } else {
             block.ops.push("qk".into());
             log(format!("an 3 {}", grp.capacity()));
+            ks();
         }
     }
     for _ in 0..rng.below(3) {
         if !key_of.is_empty() {
             let c = rng.below(key_of.len());
             block.ops.push(format!("f {c} 0"));
-            fire(c, 0);
+            fire_op(c, 0);
         }
     }
     block.ops.push("d".into());
@@ -948,7 +1003,7 @@ fn run_group(rng: &mut Rng, stream: bool, id: &str, prof: &Profile) {
         if !key_of.is_empty() {
             let c = rng.below(key_of.len());
             block.ops.push(format!("f {c} 0"));
-            fire(c, 0);
+            fire_op(c, 0);
         }
     }
     let trace = CTX.with(|c| std::mem::take(&mut c.borrow_mut().log));
@@ -1089,7 +1144,7 @@ fn run_co(rng: &mut Rng, id: &str, prof: &Profile) {
             let age = if rng.chance(85) { 0 } else { rng.below(3) };
             block.ops.push(format!("f {c} {age}"));
             let from = CTX.with(|c| c.borrow().log.len());
-            fire(c, age);
+            fire_op(c, age);
             if CTX.with(|c| c.borrow().log[from..].iter().any(|l| *l == format!("wo {cur_w}"))) {
                 woken = true;
             }
@@ -1135,7 +1190,7 @@ fn replay_co(header: &str, scripts: &[(usize, Vec<Step>)], ops: &[String]) {
                     }
                 }
             }
-            "f" => fire(ws[1].parse().unwrap(), ws[2].parse().unwrap()),
+            "f" => fire_op(ws[1].parse().unwrap(), ws[2].parse().unwrap()),
             "d" => {
                 log("db".into());
                 drop(top.take());
@@ -1262,7 +1317,7 @@ fn run_nest(rng: &mut Rng, id: &str, prof: &Profile) {
             let age = if rng.chance(75) { 0 } else { rng.below(3) };
             block.ops.push(format!("f {c} {age}"));
             let from = CTX.with(|c| c.borrow().log.len());
-            fire(c, age);
+            fire_op(c, age);
             if CTX.with(|c| c.borrow().log[from..].iter().any(|l| *l == format!("wo {cur_w}"))) {
                 woken = true;
             }
@@ -1275,7 +1330,7 @@ fn run_nest(rng: &mut Rng, id: &str, prof: &Profile) {
     for _ in 0..rng.below(3) {
         let c = *rng.pick(&ids);
         block.ops.push(format!("f {c} 0"));
-        fire(c, 0);
+        fire_op(c, 0);
     }
     let trace = CTX.with(|c| std::mem::take(&mut c.borrow_mut().log));
     block.print(&trace);
@@ -1330,7 +1385,7 @@ fn replay_nest(header: &str, scripts: &[(usize, Vec<Step>)], ops: &[String]) {
                     }
                 }
             }
-            "f" => fire(ws[1].parse().unwrap(), ws[2].parse().unwrap()),
+            "f" => fire_op(ws[1].parse().unwrap(), ws[2].parse().unwrap()),
             "d" => {
                 log("db".into());
                 drop(top.take());
@@ -1402,6 +1457,9 @@ fn replay() {
 }
 
 fn replay_one(header: &str, scripts: &[(usize, Vec<Step>)], ops: &[String]) {
+    // a case of the `mt` mode (recognisable by its id) is replayed in that mode
+    let is_mt = header.split_whitespace().nth(1).map(|id| id.contains("-mt-")).unwrap_or(false);
+    MT.store(is_mt, std::sync::atomic::Ordering::Relaxed);
     if header.split_whitespace().nth(2) == Some("co") {
         #[cfg(feature = "co")]
         replay_co(header, scripts, ops);
@@ -1433,7 +1491,7 @@ fn replay_one(header: &str, scripts: &[(usize, Vec<Step>)], ops: &[String]) {
     let is_group = fam == "futGroup" || fam == "strGroup";
     if is_group {
         #[cfg(feature = "cfg-alloc")]
-        replay_group(fam == "strGroup", keyed, ops);
+        replay_group(fam == "strGroup", keyed, ops, hw.get(7).cloned().unwrap_or("new"));
     } else {
         let _ = keyed;
         let mut comb: Option<Box<dyn Comb>> = Some(match fam {
@@ -1456,7 +1514,7 @@ fn replay_one(header: &str, scripts: &[(usize, Vec<Step>)], ops: &[String]) {
                         do_poll(&mut |cx| c.poll(cx), ws[1].parse().unwrap());
                     }
                 }
-                "f" => fire(ws[1].parse().unwrap(), ws[2].parse().unwrap()),
+                "f" => fire_op(ws[1].parse().unwrap(), ws[2].parse().unwrap()),
                 "d" => {
                     log("db".into());
                     drop(comb.take());
@@ -1477,16 +1535,45 @@ fn replay_one(header: &str, scripts: &[(usize, Vec<Step>)], ops: &[String]) {
 }
 
 #[cfg(feature = "cfg-alloc")]
-fn replay_group(stream: bool, keyed: bool, ops: &[String]) {
+fn replay_group(stream: bool, keyed: bool, ops: &[String], ctor_text: &str) {
     use crate::groups::*;
-    let mut g: Option<Box<dyn GroupDyn>> = Some(build_group(stream, keyed));
     let mut mirror = SlabMirror::default();
     let nch = CTX.with(|c| c.borrow().scripts.len());
     let mut key_of: Vec<Option<usize>> = vec![None; nch];
-    for o in ops {
+    let ctor = if ctor_text == "default" {
+        Ctor::Default
+    } else if let Some(k) = ctor_text.strip_prefix("cap:") {
+        Ctor::WithCapacity(k.parse().unwrap())
+    } else if let Some(cs) = ctor_text.strip_prefix("iter:") {
+        Ctor::FromIter(if cs == "-" { vec![] } else { cs.split(',').map(|x| x.parse().unwrap()).collect() })
+    } else {
+        Ctor::New
+    };
+    if let Ctor::FromIter(cs) = &ctor {
+        for c in cs {
+            let k = mirror.insert();
+            set_slot(*c, k);
+            key_of[*c] = Some(k);
+        }
+    }
+    let mut g: Option<Box<dyn GroupDyn>> = Some(build_group_with(stream, keyed, ctor.clone()));
+    if let Ctor::FromIter(cs) = &ctor {
+        for c in cs {
+            log(format!("in {c} {}", key_of[*c].unwrap()));
+        }
+    }
+    // the first operation of the history is the one the constructor stands for
+    let skip = match ctor {
+        Ctor::WithCapacity(_) | Ctor::FromIter(_) => 1,
+        _ => 0,
+    };
+    if skip == 1 {
+        ks();
+    }
+    for o in ops.iter().skip(skip) {
         let ws: Vec<&str> = o.split(' ').collect();
         if ws[0] == "f" {
-            fire(ws[1].parse().unwrap(), ws[2].parse().unwrap());
+            fire_op(ws[1].parse().unwrap(), ws[2].parse().unwrap());
             continue;
         }
         if ws[0] == "d" {
@@ -1574,6 +1661,10 @@ fn replay_group(stream: bool, keyed: bool, ops: &[String]) {
             "qk" => log(format!("an 3 {}", grp.capacity())),
             _ => {}
         }
+        // the poll has logged its own snapshot
+        if ws[0] != "p" {
+            ks();
+        }
     }
     if g.is_some() {
         set_mute(true);
@@ -1599,14 +1690,21 @@ fn main() {
         .get(3)
         .map(|s| s.split(',').map(|x| x.to_string()).collect())
         .unwrap_or_else(|| vec!["join".to_string()]);
-    let prof = Profile { name: args.get(4).cloned().unwrap_or_else(|| "random".into()) };
+    // `mt` / `mt-<profile>`: the profile's cases with in-poll wake-ups issued from a second thread
+    let pname: String = args.get(4).cloned().unwrap_or_else(|| "random".into());
+    let prof = if pname == "mt" || pname.starts_with("mt-") {
+        MT.store(true, std::sync::atomic::Ordering::Relaxed);
+        Profile { name: pname.strip_prefix("mt-").unwrap_or("random").to_string() }
+    } else {
+        Profile { name: pname.clone() }
+    };
     // injected panics are part of the cases; keep stderr quiet
     std::panic::set_hook(Box::new(|_| {}));
     let mut rng = Rng(seed.wrapping_mul(0x2545F4914F6CDD1D) ^ 0xD1B54A32D192ED03);
-    let cfg = if cfg!(feature = "cfg-std") { "std" } else if cfg!(feature = "cfg-alloc") { "alloc" } else { "nostd" };
+    let cfg = if cfg!(feature = "verif") { "stdv" } else if cfg!(feature = "cfg-std") { "std" } else if cfg!(feature = "cfg-alloc") { "alloc" } else { "nostd" };
     for k in 0..count {
         let fam = fams[k % fams.len()].clone();
-        let id = format!("{cfg}-{}-{fam}-{seed}-{k}", prof.name);
+        let id = format!("{cfg}-{pname}-{fam}-{seed}-{k}");
         match fam.as_str() {
             "fgroup" | "sgroup" => {
                 #[cfg(feature = "cfg-alloc")]
